@@ -109,6 +109,7 @@ var c13cmp = gen.Register(&gen.Check[caseC13cmp]{
 	},
 	Required: []string{"rel:canon-words", "rel:equal", "rel:adjacent", "rel:canon-limb", "rel:mont-limb", "rel:random", "s<t", "s>t"},
 	Run: func(c caseC13cmp, o *gen.Obs) error {
+		hostileCaller()
 		vs, vt := c.S.Value(), c.T.Value()
 		s, t := c.S.Build(), c.T.Build()
 		cmp := vs.Cmp(vt)
